@@ -150,26 +150,43 @@ func init() {
 		register(&op{
 			name: "K/babybear/Poseidon2_" + itoa(w),
 			gen: func(t *rapid.T) ([][]byte, []string, bool) {
-				return [][]byte{babybearVals(t, w, "s")}, nil, true
+				// parameter sets around the AVX-512 fast-path gate (width, 6 full, 21 partial rounds), seeded or not
+				rf := rapid.SampledFrom([]int{6, 6, 6, 8}).Draw(t, "rf")
+				rp := rapid.SampledFrom([]int{21, 21, 22, 23, 40, 13}).Draw(t, "rp")
+				seeded := rapid.IntRange(0, 1).Draw(t, "seeded")
+				fast := rf == 6 && rp == 21
+				return [][]byte{{byte(rf), byte(rp), byte(seeded)}, babybearVals(t, w, "s")},
+					[]string{"p2_fast_params:" + b2s(fast), "p2_seeded:" + b2s(seeded == 1)}, true
 			},
 			run: func(a [][]byte) [][]byte {
-				rp := 21
-				if w == 16 {
-					rp = 21
+				rf, rp := int(a[0][0]), int(a[0][1])
+				var h *poseidon2.Permutation
+				if a[0][2] == 1 {
+					h = poseidon2.NewPermutationWithSeed(w, rf, rp, "verif-c09")
+				} else {
+					h = poseidon2.NewPermutation(w, rf, rp)
 				}
-				h := poseidon2.NewPermutation(w, 6, rp)
-				v := babybearElems(a[0])
+				v := babybearElems(a[1])
 				if err := h.Permutation(v); err != nil {
 					return [][]byte{[]byte(err.Error())}
 				}
 				out := [][]byte{babybearDump(v)}
-				// a second parameter set exercises the generic (non-fast) round structure
-				h2 := poseidon2.NewPermutationWithSeed(w, 8, 13, "verif")
-				v2 := babybearElems(a[0])
-				if err := h2.Permutation(v2); err != nil {
-					return [][]byte{[]byte(err.Error())}
+				if w == 24 {
+					var m [24][16]fr.Element
+					for i := 0; i < 24; i++ {
+						for j := 0; j < 16; j++ {
+							m[i][j] = babybearElems(a[1])[i]
+							m[i][j].Add(&m[i][j], &v[(i+j)%24])
+						}
+					}
+					h.Permutation16x24(&m)
+					var o []fr.Element
+					for i := 0; i < 24; i++ {
+						o = append(o, m[i][:]...)
+					}
+					out = append(out, babybearDump(o))
 				}
-				return append(out, babybearDump(v2))
+				return out
 			},
 		})
 	}
